@@ -572,7 +572,7 @@ def main(argv):
     if not st["proof_ok"] and not report.violations:
         report.violation("proof", dict(kind="proof", theorem="Props/C12.v", detail=report.notes.get("proof_failure")), found_input=False)
     report.open_obligations = [
-        "_copy_colr (layer glyphs appended once, metrics assertion) and _copy_cbdt re-sharding are checked on every generated font, not yet modelled in Coq",
+        "_copy_colr's metrics assertion is exercised on every generated font, not modelled; _copy_cbdt's re-sharding is the run/offset model of C14 (tied there to the real function on fake fonts)",
         "COLR->SVG (C13) and SVG->COLR (C01/C03) picture preservation are separate theorems; their composition with T4/T5 into one statement about maximum_color is by the end-to-end oracle only",
         "CBDT pictures are only checked to be decodable, non-empty PNGs for exactly the colour glyphs (resvg rasterisation is outside the model)",
     ]
